@@ -203,9 +203,8 @@ def make_generator(name, f):
 
 def contracts(tier):
     if tier == "quick":
-        det = [("polling", 125e6), ("polling", 5e6), ("polling", 2.5e6), ("ping", 125e6), ("ping", 100e3),
-               ("reset", 125e6), ("reset", 250.0)]
-        gen = [("polling", 125e6), ("polling", 1e6), ("polling", 62.5e6)]
+        det = [("polling", 125e6), ("polling", 5e6), ("ping", 125e6), ("reset", 125e6), ("reset", 250.0)]   # 125 MHz: as built
+        gen = [("polling", 125e6), ("polling", 1e6)]
     else:
         det = [(n, f) for n in ("polling", "ping", "reset") for f in (125e6, 250e6, 62.5e6, 10e6, 5e6, 2.5e6, 1e6)] + \
               [("ping", 100e3), ("ping", 1e3), ("reset", 1e3), ("reset", 250.0), ("reset", 100.0)]
